@@ -8,6 +8,7 @@
 #define SPECTRA_SEARCH_SPACE_H
 
 #include <Eigen/Core>
+#include <algorithm>  // std::min
 
 #include "RitzPairs.h"
 #include "Orthogonalization.h"
@@ -69,6 +70,8 @@ public:
     /// \param size Size of the restart
     void restart(const RitzPairs<Scalar>& ritz_pairs, Index size)
     {
+        // There may be fewer Ritz pairs than the requested size
+        size = (std::min)(size, ritz_pairs.size());
         m_basis_vectors = ritz_pairs.ritz_vectors().leftCols(size);
         m_op_basis_product = m_op_basis_product * ritz_pairs.small_ritz_vectors().leftCols(size);
     }
